@@ -36,8 +36,63 @@ def sink_fn(facts, adt, m):
     return facts.fn("<%s as %s>::%s" % (adt, SINK, m))
 
 
+def rediscover_rule(ctx, r):
+    """find_iter_at_in_context: a match starting at or after the end of the reported range belongs to a later line
+    and is never reported for this range; the searched haystack is bounded; the search starts at range.start."""
+    facts = ctx.facts
+    FI = P + "::util::find_iter_at_in_context"
+    f = facts.fn(FI)
+    eb = ExprBuilder(f)
+    clos = [c for c in facts.closures_of(FI) if any(x.is_("core::ops::function::FnMut::call_mut") for x in c.calls())]
+    if len(clos) != 1:
+        r.bad("closure", "anchor-missing: the reporting closure of find_iter_at_in_context", fn=f)
+    else:
+        c = clos[0]
+        ebc = ExprBuilder(c)
+        cb = [x for x in c.calls() if x.is_("core::ops::function::FnMut::call_mut")]
+
+        def bound_test(e, ops):
+            return e.k == "bin" and e[1] in ops and mentions_call(e, "grep_matcher::Match::start") and \
+                any(y.k == "field" and y[3] == "range" for y in walk(e)) and \
+                mentions_call(e[2], "grep_matcher::Match::start")
+        ge = cond_switches(c, lambda e: bound_test(e, ("Ge",)), ebc)
+        lt = cond_switches(c, lambda e: bound_test(e, ("Lt",)), ebc)
+        ok = (ge and not guarded(c, [cb[0].bb], ge, False)) or (lt and not guarded(c, [cb[0].bb], lt, True))
+        if ok:
+            r.ok("bound", "callback only for matches with start < range.end (a match starting at range.end is the next line's)", fn=c)
+        else:
+            r.bad("bound", "find_iter_at_in_context reports matches that start at (or after) the end of the reported range: "
+                  "their offsets lie beyond the line being printed", fn=c, loc=cb[0].loc, construct="bound")
+        if ge:
+            s_ = Sccp(c).run([(ge[0][1][1], {})])
+            vals = {x for v in s_.ret_values.values() for x in value_set(v)}
+            if vals == {I(0)}:
+                r.ok("stop", "start ≥ range.end ⇒ stop iterating", fn=c)
+            else:
+                r.bad("stop", "a match beyond the range does not stop the iteration", fn=c)
+    fi = [c for c in f.calls() if c.func.get("trait") == "grep_matcher::Matcher" and c.func["name"] == "find_iter_at"]
+    if len(fi) != 1:
+        r.bad("call", "anchor-missing: Matcher::find_iter_at in find_iter_at_in_context", fn=f)
+    else:
+        hay, at = eb.operand(fi[0].args[1]), eb.operand(fi[0].args[2])
+        bounded = any(is_call(x, "core::ops::index::Index::index") for x in walk(hay)) and \
+            mentions_call(hay, P + "::util::trim_line_terminator") or any(x.k == "phi" for x in walk(hay))
+        if bounded and any(y.k == "field" and y[3] == "start" for y in walk(at)):
+            r.ok("call", "find_iter_at(bounded haystack, range.start)", fn=f)
+        else:
+            r.bad("call", "re-discovery searches `%s` from `%s`" % (show(hay)[:50], show(at)[:30]), fn=f, construct="call")
+        ml = cond_switches(f, lambda e: is_call(e, "grep_searcher::searcher::Searcher::multi_line_with_matcher"), eb)
+        tr = f.calls_to(P + "::util::trim_line_terminator")
+        if ml and tr and not guarded(f, [tr[0].bb], ml, False):
+            r.ok("trim", "single-line mode: the line terminator is trimmed from the haystack", fn=f)
+        else:
+            r.bad("trim", "in single-line mode the re-discovery haystack still contains the line terminator", fn=f, construct="trim")
+
+
 def run(ctx):
     facts = ctx.facts
+    with ctx.rule("C09.REDISCOVER", "match re-discovery is confined to the reported range", floor=3, kind="GUARD/FLOW") as r:
+        rediscover_rule(ctx, r)
     with ctx.rule("C09.FRAME", "JSON framing: begin dominates, at most once, end only after begin", floor=6, kind="DOM/GUARD") as r:
         WB = JS + "::write_begin_message"
         WM = JSON + "::write_message"
